@@ -86,6 +86,15 @@ func (w *W) routePath() string {
 	return "/t"
 }
 
+// pickCode: mostly well-known codes; one in five is ANY code from 200 to 599 (unregistered ones such as 299, 499
+// or 520 are sent by net/http as they are: a status is a number, not an entry of a table of names)
+func pickCode(r *verifsim.Rng) int {
+	if r.Intn(5) == 0 {
+		return 200 + r.Intn(400)
+	}
+	return verifsim.Pick(r, codes)
+}
+
 var codes = []int{200, 201, 202, 203, 204, 205, 226, 301, 302, 304, 307, 308, 400, 401, 403, 404, 409, 418, 422, 429, 451, 500, 502, 503}
 
 func genOp(r *verifsim.Rng, n int) ROp {
@@ -93,7 +102,7 @@ func genOp(r *verifsim.Rng, n int) ROp {
 	op := ROp{K: k}
 	switch k {
 	case "status", "writeheader":
-		op.C = verifsim.Pick(r, codes)
+		op.C = pickCode(r)
 	case "header":
 		op.A = fmt.Sprintf("X-H%d=v%d", r.Intn(3), n)
 		switch r.Intn(8) {
@@ -126,7 +135,7 @@ func genOp(r *verifsim.Rng, n int) ROp {
 		}
 		// always with an explicit code: html()'s declared default (200) makes
 		// "html($s)" ambiguous between "sets 200" and "keeps the pending status"
-		op.C = verifsim.Pick(r, codes)
+		op.C = pickCode(r)
 	case "redirect":
 		op.A = fmt.Sprintf("/r%d", n)
 		if r.Intn(2) == 0 {
